@@ -240,6 +240,56 @@ func init() {
 					r.Error("undecided: %s does not capture the level list", f.Name())
 				}
 			}
+			// the memtable read is a read at call time: List.ScanPrefix / List.Get take their snapshot of
+			// the memtable queue in the function itself, not inside an iterator they return (a lazy
+			// snapshot is taken when the caller starts ranging, after the level list was captured)
+			tablesF := r.P.Field("dkv/memtable", "List", "tables")
+			snap := r.P.TryFunc("dkv/memtable", "(*List).tablesSnap")
+			for _, name := range []string{"(*List).ScanPrefix", "(*List).Get"} {
+				lf := r.P.Func("dkv/memtable", name)
+				li := lf.Pkg.TypesInfo
+				eager, lazy := 0, 0
+				var lazyPos token.Pos
+				var walk func(n ast.Node, inLit bool)
+				walk = func(n ast.Node, inLit bool) {
+					ast.Inspect(n, func(m ast.Node) bool {
+						switch x := m.(type) {
+						case *ast.FuncLit:
+							if m != n && !isIIFE(r.P, x) {
+								walk(x.Body, true)
+								return false
+							}
+						case *ast.CallExpr:
+							if snap != nil && r.P.CalleeFunc(li, x) == snap.Obj {
+								if inLit {
+									lazy++
+									lazyPos = x.Pos()
+								} else {
+									eager++
+								}
+							}
+						case *ast.SelectorExpr:
+							if prog.SelField(li, x) == tablesF {
+								if inLit {
+									lazy++
+									lazyPos = x.Pos()
+								} else {
+									eager++
+								}
+							}
+						}
+						return true
+					})
+				}
+				walk(lf.Decl.Body, false)
+				r.Site(lf.Decl.Pos(), lf.Name()+": memtable queue snapshot at call time")
+				if lazy > 0 && eager == 0 {
+					r.Fail(lf.Name()+":lazy-snapshot", lazyPos, nil, "%s reads the memtable queue only inside the iterator it returns: the snapshot is taken when the caller starts ranging, i.e. after DB.ScanPrefix captured the level list, so a flush completing in between makes the flushed entries invisible in both (lost puts, deleted entries reappearing)", lf.Name())
+				}
+				if lazy == 0 && eager == 0 {
+					r.Error("undecided: %s does not read the memtable queue", lf.Name())
+				}
+			}
 		}})
 
 	register(&Obligation{ID: "C07.d", Props: []string{"C07", "C18", "C08"}, Template: "atomic-section",
